@@ -134,12 +134,22 @@ f([m1, k, m2, \"é\", m3]);
            rules: vec![json!({"id": "aa-first", "language": "JavaScript", "severity": "warning", "message": "m", "rule": {"pattern": "foo($A)"}, "fix": "bar($A)"}),
                        json!({"id": "zz-second", "language": "JavaScript", "severity": "warning", "message": "m", "rule": {"pattern": "foo($A)"}, "fix": "baz($A)"})],
            stmt_mode: false },
+    // a file whose name is not valid UTF-8: announced under its name with a replacement character, rewritten in place
+    Case { id: "scan-odd-file-name".into(), files: vec![("o/caf\u{fffd}.js".into(), "foo(1);\nfoo(\"é\");\n".into()), ("o/plain.js".into(), "foo(2);\n".into())],
+           rules: vec![r1.clone()], stmt_mode: false },
     Case { id: "scan-no-match".into(), files: vec![("n.js".into(), "keep();\n".into())], rules: vec![r1], stmt_mode: false },
   ]
 }
 
+/// a path holding U+FFFD stands for a file whose NAME has the byte 0xE9 there (not valid UTF-8); the reports show the
+/// replacement character, the file on disk keeps its name
+fn os_path(p: &Project, path: &str) -> std::path::PathBuf {
+  use std::os::unix::ffi::OsStrExt;
+  let raw: Vec<u8> = path.replace('\u{fffd}', "\u{1}").bytes().map(|b| if b == 1 { 0xE9 } else { b }).collect();
+  std::path::Path::new(&p.root).join(std::ffi::OsStr::from_bytes(&raw))
+}
 fn snapshot(p: &Project, files: &[(String, String)]) -> Vec<Vec<u8>> {
-  files.iter().map(|(path, _)| p.read(path)).collect()
+  files.iter().map(|(path, _)| std::fs::read(os_path(p, path)).unwrap_or_default()).collect()
 }
 
 fn announced(stdout: &str) -> Vec<Value> {
@@ -155,7 +165,9 @@ fn announced(stdout: &str) -> Vec<Value> {
 fn run_case(c: &Case, scratch: &str, idx: usize) -> Vec<Value> {
   let p = Project::new(&format!("{scratch}/p{idx}"));
   for (path, content) in &c.files {
-    p.write(path, content.as_bytes());
+    let full = os_path(&p, path);
+    std::fs::create_dir_all(full.parent().unwrap()).unwrap();
+    std::fs::write(full, content.as_bytes()).unwrap();
   }
   let base: Vec<String> = if c.rules.is_empty() {
     if c.stmt_mode {
